@@ -35,6 +35,21 @@ pub fn dst_ia(k: usize) -> IsdAsn {
     ia(1, 0x200 + k as u64)
 }
 
+/// ISD of an AS of the universe: source and destinations live in ISD 1; transit ASes are spread over three ISDs (a fixed
+/// function of the AS number, so that routes crossing a third ISD occur in most universes).
+pub fn isd_of(asn: u64) -> u16 {
+    match asn {
+        0x301 => 3,
+        0x303 => 2,
+        _ => 1,
+    }
+}
+
+/// ISD-AS of an AS of the universe.
+pub fn ia_of(asn: u64) -> IsdAsn {
+    ia(isd_of(asn), asn)
+}
+
 /// One hop of a route: (asn, ingress, egress).
 #[derive(Clone, Debug, PartialEq, Eq)]
 pub struct Hop {
@@ -54,7 +69,7 @@ impl Route {
     pub fn describe(&self) -> String {
         let mut s = String::new();
         for h in &self.hops {
-            s.push_str(&format!("{:x}[{}>{}] ", h.asn, h.ing, h.eg));
+            s.push_str(&format!("{}-{:x}[{}>{}] ", isd_of(h.asn), h.asn, h.ing, h.eg));
         }
         s.trim_end().to_string()
     }
@@ -117,7 +132,7 @@ pub fn build_path(route: &Route, expiry: u32, with_metadata: bool) -> ScionPath 
             .with_hop_expiry(0)
             .up();
         for h in &route.hops {
-            b = b.with_asn(h.asn as u32).add_hop(h.ing, h.eg);
+            b = b.with_isd(isd_of(h.asn)).with_asn(h.asn as u32).add_hop(h.ing, h.eg);
         }
         b.build(ts).path()
     };
@@ -289,11 +304,12 @@ pub fn draw_policies(sim: &Sim, routes: &[Route]) -> PolicySet {
         2 | 3 => {
             // ACL: deny (or allow only) paths through a hop
             let (a, i, e) = pick_hop(sim);
+            let d = isd_of(a);
             let s = match sim.idx(4) {
-                0 => format!("- 1-{a} +"),
-                1 => format!("- 1-{a}#{} +", if e != 0 { e } else { i }),
-                2 => format!("+ 1-{a} -"),
-                _ => format!("- 1-{a}#{i},{e} +"),
+                0 => format!("- {d}-{a} +"),
+                1 => format!("- {d}-{a}#{} +", if e != 0 { e } else { i }),
+                2 => format!("+ {d}-{a} -"),
+                _ => format!("- {d}-{a}#{i},{e} +"),
             };
             match AclPolicy::parse(&s) {
                 Ok(p) => {
@@ -306,10 +322,11 @@ pub fn draw_policies(sim: &Sim, routes: &[Route]) -> PolicySet {
         }
         4 => {
             let (a, _, _) = pick_hop(sim);
+            let d = isd_of(a);
             let s = match sim.idx(3) {
-                0 => format!("0* 1-{a} 0*"),
+                0 => format!("0* {d}-{a} 0*"),
                 1 => "0 0 0?".to_string(),
-                _ => format!("0+ (1-{a} | 1-{}) 0*", a + 1),
+                _ => format!("0+ ({d}-{a} | {}-{}) 0*", isd_of(a + 1), a + 1),
             };
             match HopPatternPolicy::parse(&s) {
                 Ok(p) => {
@@ -323,7 +340,8 @@ pub fn draw_policies(sim: &Sim, routes: &[Route]) -> PolicySet {
         _ => {
             // combination: ACL and hash
             let (a, _, _) = pick_hop(sim);
-            let s = format!("- 1-{a} +");
+            let d = isd_of(a);
+            let s = format!("- {d}-{a} +");
             let salt = sim.draw(1 << 16);
             if let Ok(p) = AclPolicy::parse(&s) {
                 ps.policies.push(Arc::new(p));
